@@ -44,6 +44,12 @@ def scenarios(tier, seed):
                             unwind=3, max_paths=60, budget_s=60, fields=sym))
             out.append(dict(net="none", space=("graph", "pair"), option=o, policy="on_iteration", isp=isp, n_req=1, calls=["fetch", "finalize"],
                             unwind=3, max_paths=60, budget_s=60, fields=sym))
+    # reactions of order 4 (the largest the catalogue has) and of order 3 with a repeated reactant: any table indexed by the order
+    for o in OPTS:
+        out.append(dict(net="order4", space=("grid", 2, 1, 1, 0), option=o, policy="on_iteration", isp="none", n_req=1, calls=["iterate", "fetch", "finalize"],
+                        fields=("state",) if o == "euler" else ()))
+        out.append(dict(net="order4", space=("graph", "pair"), option=o, policy="on_iteration", isp="none", n_req=1, calls=["iterate", "fetch", "finalize"],
+                        fields=("state",) if o == "euler" else ()))
     # degenerate graphs
     for g in ("path_isolated", "selfloop", "parallel"):
         for o in OPTS:
